@@ -3,6 +3,7 @@ CONSTANTS
  R = 1000
  Keys = {"k1","k2"}
  Vals = {"", "0", "1", "9223372036854775807", "-9223372036854775808", "x"}
+ OptKeys = {"k1","k2"}
  OptVals = {"", "0", "1", "9223372036854775807", "-9223372036854775808", "x"}
  Deltas = {"1", "-1", "2", "9223372036854775807", "-9223372036854775808", "-9223372036854775807", "9223372036854775806", "x", ""}
  Shorts = {}
